@@ -1,5 +1,4 @@
 package prod
 
-func runSign()                                          {}
-func runOTVole()                                        {}
-func runTamper(stride, startAt int, announce bool)      {}
+// tamper mode (C04 on production curves) is not built: see the ProdProto report.
+func runTamper(stride, startAt int, announce bool) {}
